@@ -8,3 +8,7 @@ package cmd
 // VerifIsSmellHaveSize exposes isSmellHaveSize (cmd/bs.go), the predicate that selects which
 // bad-smell kinds `bs --sort type` orders by size.
 func VerifIsSmellHaveSize(key string) bool { return isSmellHaveSize(key) }
+
+// VerifGetCommitMessage runs getCommitMessage (cmd/git.go): the exact `git log` invocation of
+// `coca git`, in the current working directory.
+func VerifGetCommitMessage() string { return getCommitMessage() }
